@@ -535,7 +535,15 @@ func runHistory(seed uint64, idx, nBlocks int, cnt *Counters) (*finding, int, []
 // thresholdFlip: a hard or cdp message refused on one chain only, with an error that compares
 // a position (which the export's interest settlement moved by its rounding) with a threshold.
 func thresholdFlip(desc, logs string) bool {
-	if !(strings.HasPrefix(desc, "hard.") || strings.HasPrefix(desc, "cdp.")) {
+	// an auction started after the import (a liquidation of a hard or cdp position in a follow-up
+	// block) carries the position's debt as its maximum bid: it differs by the settlement
+	// rounding too, so a bid aimed exactly at the maximum bid flips likewise
+	if strings.HasPrefix(desc, "auction.") {
+		l := strings.ToLower(logs)
+		return strings.Contains(l, "max bid") || strings.Contains(l, "maximum bid")
+	}
+	// (earn's hard-strategy vaults are valued from the synced hard deposit of the earn account)
+	if !(strings.HasPrefix(desc, "hard.") || strings.HasPrefix(desc, "cdp.") || strings.HasPrefix(desc, "earn.")) {
 		return false
 	}
 	l := strings.ToLower(logs)
